@@ -115,7 +115,7 @@ var cmdStubs = []string{
 	"symbolic pre-state: one preloaded chained log with arbitrary id L and one committed transaction with arbitrary id N (all that Commander.Init reads)",
 	"time.Now is a deterministic counter clock; logging is a no-op; pond.Submit(f) = go f()",
 	"sha256 values are opaque tokens compared structurally (injectivity assumed); encoding/json is modelled over ropes (DESIGN §3.7)",
-	"compiler.Compile runs natively, compilation cache bypassed",
+	"compiler.Compile (ANTLR) runs natively in a helper built from the current tree; command.Compiler.Compile and its cache are interpreted (sha256 = injective token, gcache = bounded LFU model)",
 	"sequential requests: scheduler is deterministic (no pre-emption) in this check",
 }
 
